@@ -251,3 +251,69 @@ Example C09_chk_solution_example :
 Proof. vm_compute. reflexivity. Qed.
 
 Print Assumptions C09_chk_solution_partial.
+
+(* ================================================================================================================
+   chk_solution: the FULL reading, by the soundness of the Gauss-Jordan stand-in (proofs/QSolve_proofs.v, QR_bridge_C09_solve.v).
+   LA.qsolve (pivot search, normalisation, elimination on every other row, Qred after each operation) is proved sound: on a
+   square n x n system with an n x m right-hand side, a returned X has shape n x m and A X == B entry-wise (Qeq) -- hence,
+   embedded, A X = B exactly over R -- and it is the only rational solution of that shape.  The system the runner builds
+   (tabulated buffers + ridge I, transposed YXT) has that shape whatever the data, so [C09_chk_solution_full_statement] holds:
+   LA.qsolve is no longer in the trusted base of this check.                                                              *)
+From RV Require Import proofs.QSolve_proofs proofs.QR_bridge_C09_solve.
+
+(* the solver itself, vocabulary spelled out: A is n x n, B is n x m *)
+Theorem C09_qsolve_sound (n m : nat) (A B X : list (list Q)) :
+  length A = n -> Forall (fun r => length r = n) A -> length B = n -> Forall (fun r => length r = m) B ->
+  qsolve A B = Some X ->
+  length X = n /\ Forall (fun r => length r = m) X /\ Forall2 (Forall2 Qeq) (mm A X m) B.
+Proof. intros a b c d. exact (qsolve_sound n m A B X (conj a (conj b (conj c d)))). Qed.
+
+Theorem C09_qsolve_unique (n m : nat) (A B X Y : list (list Q)) :
+  length A = n -> Forall (fun r => length r = n) A -> length B = n -> Forall (fun r => length r = m) B ->
+  qsolve A B = Some X ->
+  length Y = n -> Forall (fun r => length r = m) Y -> Forall2 (Forall2 Qeq) (mm A Y m) B -> Forall2 (Forall2 Qeq) Y X.
+Proof. intros a b c d. exact (qsolve_unique n m A B X Y (conj a (conj b (conj c d)))). Qed.
+
+Theorem C09_chk_solution_full : C09_chk_solution_full_statement.
+Proof. exact chk_solution_full. Qed.
+
+(* the same with the rational witness and its shape; [chk_solutions]: several observed solutions against one exact solution *)
+Theorem C09_chk_solution_is_about_R_model (bias : bool) (din dout w : nat) (batches : list (list (list (list Q * list Q)))) (ridge : Q)
+    (obsW obsB : list (list Q)) :
+  chk_solution bias din dout w batches ridge obsW obsB = true ->
+  exists Wq : list (list Q),
+    (length (qm2r Wq) = (if bias then S din else din) /\ Forall (fun r => length r = dout) (qm2r Wq)) /\
+    mm (sysR bias din w (qbatches2r batches) (Q2R ridge)) (qm2r Wq) dout = rhsR bias din dout w (qbatches2r batches) /\
+    weights_close bias (qm2r Wq) obsW obsB.
+Proof. exact (chk_solution_is_about_R_model bias din dout w batches ridge obsW obsB). Qed.
+
+Theorem C09_chk_solutions_is_about_R_model (bias : bool) (din dout w : nat) (batches : list (list (list (list Q * list Q)))) (ridge : Q)
+    (obs : list (list (list Q) * list (list Q))) :
+  chk_solutions bias din dout w batches ridge obs = true ->
+  exists Wq : list (list Q),
+    (length (qm2r Wq) = (if bias then S din else din) /\ Forall (fun r => length r = dout) (qm2r Wq)) /\
+    mm (sysR bias din w (qbatches2r batches) (Q2R ridge)) (qm2r Wq) dout = rhsR bias din dout w (qbatches2r batches) /\
+    Forall (fun o => weights_close bias (qm2r Wq) (fst o) (snd o)) obs.
+Proof. exact (chk_solutions_is_about_R_model bias din dout w batches ridge obs). Qed.
+
+(* the exact solution is unique among rational matrices of that shape: the observed weights are compared with THE solution *)
+Theorem C09_model_solution_unique (bias : bool) (din dout w : nat) (batches : list (list (list (list Q * list Q)))) (ridge : Q)
+    (Wq Y : list (list Q)) :
+  model_solution bias din dout w batches ridge = Some Wq ->
+  length Y = (if bias then S din else din) /\ Forall (fun r => length r = dout) Y ->
+  mm (sysR bias din w (qbatches2r batches) (Q2R ridge)) (qm2r Y) dout = rhsR bias din dout w (qbatches2r batches) ->
+  qm2r Y = qm2r Wq.
+Proof. exact (model_solution_unique bias din dout w batches ridge Wq Y). Qed.
+
+(* non-vacuity: the premise holds on the scenario of C09_chk_solution_example, and the elimination returns W = 4/5 *)
+Example C09_chk_solution_full_example :
+  chk_solution false 1 1 0 [[[([(2#1)%Q], [(1#1)%Q]); ([(1#2)%Q], [(4#1)%Q])]]] (3#4)%Q [[(4#5)%Q]] [] = true /\
+  model_solution false 1 1 0 [[[([(2#1)%Q], [(1#1)%Q]); ([(1#2)%Q], [(4#1)%Q])]]] (3#4)%Q = Some [[(4#5)%Q]].
+Proof. exact chk_solution_full_example. Qed.
+
+Print Assumptions C09_qsolve_sound.
+Print Assumptions C09_qsolve_unique.
+Print Assumptions C09_chk_solution_full.
+Print Assumptions C09_chk_solution_is_about_R_model.
+Print Assumptions C09_chk_solutions_is_about_R_model.
+Print Assumptions C09_model_solution_unique.
